@@ -593,3 +593,20 @@ func ExpandGetter(v ssa.Value, modPrefix string) (string, bool) {
 		return x
 	}), true
 }
+
+// RenderSubst renders v with the given values replaced (a callee's parameters by the caller's arguments).
+func RenderSubst(v ssa.Value, sub map[ssa.Value]ssa.Value) string {
+	if len(sub) == 0 {
+		return Render(v)
+	}
+	return renderWith(v, func(x ssa.Value) ssa.Value {
+		for i := 0; i < 4; i++ {
+			y, ok := sub[x]
+			if !ok {
+				break
+			}
+			x = y
+		}
+		return x
+	})
+}
